@@ -519,6 +519,25 @@ pub fn has_unguarded_alias_cycle(p: &Project) -> bool {
                     }
                 }
                 i = j;
+            } else if toks[i] == "interface" && i + 2 < toks.len() && toks[i + 1].chars().next().map(|c| c.is_alphabetic() || c == '_').unwrap_or(false) {
+                // `interface B extends B, C {}`: the extends clause is followed without a guard as well
+                let name = toks[i + 1].clone();
+                let mut j = i + 2;
+                let mut in_extends = false;
+                let mut angle = 0i32;
+                while j < toks.len() && toks[j] != "{" && toks[j] != ";" {
+                    match toks[j].as_str() {
+                        "extends" => in_extends = true,
+                        "<" => angle += 1,
+                        ">" => angle -= 1,
+                        t if in_extends && angle == 0 && t.chars().next().map(|c| c.is_alphabetic() || c == '_').unwrap_or(false) => {
+                            edges.entry(name.clone()).or_default().insert(t.to_string());
+                        }
+                        _ => {}
+                    }
+                    j += 1;
+                }
+                i = j;
             } else {
                 i += 1;
             }
